@@ -35,10 +35,11 @@ const (
 // Case is one replayable observation: the inputs of one glb function, judged by one oracle.
 type Case struct {
 	Fn     string    `json:"fn"`
-	Oracle string    `json:"oracle"`        // "lexer" | "shell" | "call" | "result-mutated"
-	Cfg    *shellCfg `json:"cfg,omitempty"` // oracle "shell": the configuration
-	InHex  []string  `json:"in_hex"`        // the inputs, hex (they may be invalid UTF-8)
-	InQ    []string  `json:"in_quoted"`     // the same, Go-quoted, for the reader only
+	Oracle string    `json:"oracle"`         // "lexer" | "shell" | "call" | "result-mutated"
+	Cfg    *shellCfg `json:"cfg,omitempty"`  // oracle "shell": the configuration
+	InHex  []string  `json:"in_hex"`         // the inputs, hex (they may be invalid UTF-8)
+	InQ    []string  `json:"in_quoted"`      // the same, Go-quoted, for the reader only
+	Conc   *concSpec `json:"conc,omitempty"` // observed under concurrency: the scenario to re-run
 }
 
 func mkCase(fn, oracle string, cfg *shellCfg, ins []string) Case {
@@ -250,7 +251,7 @@ type mon struct{}
 func (mon) Name() string { return "shellesc" }
 
 func (mon) Level(string) (string, string) {
-	return "exploration", "inputs = (a) every string of length <= 4 (quick) / <= 5 (thorough) over the 15-character alphabet {' \" \\ $ ` space newline ; & | * ~ ! # a}, plus \"~/\"+w for every such w (the alphabet has no '/'); (b) a fixed hostile corpus (command substitutions, separators, redirections, globs, tilde forms, every single byte in quoting contexts, arguments up to 100 kB; many try to create a canary file); (c) seeded random NUL-free byte strings of length <= 64 (2*10^4 quick / 10^6 thorough; 40% uniform bytes, 60% weighted towards shell-special bytes, 15% with a leading ~/ or ~). Every input goes through ShellEscape and ShellEscapeExceptTilde and both outputs are judged by the POSIX quoting model; (a), (b) and - in both tiers - all of (c) are also executed by dash, bash and bash --posix under LC_ALL=C and C.UTF-8 (ExceptTilde: HOME=/vhome/plain and HOME='/vhome/sp ace'), 500 words per command line, comparing the NUL-separated argv received by an external program, stderr, exit status and the directory content. The results of a batch (2500 inputs) are kept exactly as returned while the rest of the batch is escaped and it is these kept strings that go into the shell scripts; after the batch and again after the shells ran, every kept string is compared with a copy taken when it was returned and with the result of a fresh call (a result that changes while later calls happen is reported as result-mutated). distinct_nontrivial = distinct inputs containing at least one byte outside [A-Za-z0-9_./-]."
+	return "exploration", "inputs = (a) every string of length <= 4 (quick) / <= 5 (thorough) over the 15-character alphabet {' \" \\ $ ` space newline ; & | * ~ ! # a}, plus \"~/\"+w for every such w (the alphabet has no '/'); (b) a fixed hostile corpus (command substitutions, separators, redirections, globs, tilde forms, every single byte in quoting contexts, arguments up to 100 kB; many try to create a canary file); (c) seeded random NUL-free byte strings of length <= 64 (2*10^4 quick / 10^6 thorough; 40% uniform bytes, 60% weighted towards shell-special bytes, 15% with a leading ~/ or ~). Every input goes through ShellEscape and ShellEscapeExceptTilde and both outputs are judged by the POSIX quoting model; (a), (b) and - in both tiers - all of (c) are also executed by dash, bash and bash --posix under LC_ALL=C and C.UTF-8 (ExceptTilde: HOME=/vhome/plain and HOME='/vhome/sp ace'), 500 words per command line, comparing the NUL-separated argv received by an external program, stderr, exit status and the directory content. The results of a batch (2500 inputs) are kept exactly as returned while the rest of the batch is escaped and it is these kept strings that go into the shell scripts; after the batch and again after the shells ran, every kept string is compared with a copy taken when it was returned and with the result of a fresh call (a result that changes while later calls happen is reported as result-mutated). (d) every string of length <= 16 over {quote, letter} (131 071; quoting model and kept-result comparison, thorough: the shells too). (e) concurrent callers: shards with GOMAXPROCS 2/4/16 and 4, 16, 64 or 4*GOMAXPROCS goroutines, each escaping its own seeded stream of tagged words (quote-heavy, plain, hostile, arbitrary bytes, long, ~/ forms; 40 000 words per shard quick, 10^6 thorough, both functions) - every result judged at once by the quoting model against the goroutine's own input, kept results compared per block of 32, and a seeded subset of kept results run by the shells after the join; such violations carry 'concurrent' in the key and replay the scenario. distinct_nontrivial = distinct inputs containing at least one byte outside [A-Za-z0-9_./-]."
 }
 
 func (mon) Assumptions(string) []string {
@@ -263,12 +264,13 @@ func (mon) Assumptions(string) []string {
 }
 
 type shardArgs struct {
-	Kind   string `json:"kind"` // "exh" | "rand" | "corpus"
+	Kind   string `json:"kind"`        // "exh" | "rand" | "corpus" | "ql" | "conc"
+	G      int    `json:"g,omitempty"` // conc: goroutines (0 = 4*GOMAXPROCS)
 	MaxLen int    `json:"max_len,omitempty"`
 	Part   int    `json:"part"`
 	Parts  int    `json:"parts"`
-	Count  int    `json:"count,omitempty"`  // rand: inputs of this part
-	Shells int    `json:"shells,omitempty"` // rand: how many of them also go through the real shells
+	Count  int    `json:"count,omitempty"`  // rand: inputs of this part; conc: words per goroutine
+	Shells int    `json:"shells,omitempty"` // rand: how many of them also go through the real shells; conc: per goroutine and function
 }
 
 const chunk = 2500
@@ -290,6 +292,28 @@ func (mon) Plan(prop, tier string, seed int64) []drv.Shard {
 		n := nrand / parts
 		a, _ := json.Marshal(shardArgs{Kind: "rand", Part: p, Parts: parts, Count: n, Shells: n})
 		out = append(out, drv.Shard{Name: fmt.Sprintf("rand-%d", p), Args: a, Secs: secs})
+	}
+	// all strings of length <= 16 over {quote, letter}: quote-dense inputs are where size formulas
+	// of hand-written builders go wrong (lexer + retained results; thorough: also the shells)
+	const qlParts = 4
+	for p := 0; p < qlParts; p++ {
+		a, _ := json.Marshal(shardArgs{Kind: "ql", MaxLen: 16, Part: p, Parts: qlParts})
+		out = append(out, drv.Shard{Name: fmt.Sprintf("ql-%d", p), Args: a, Secs: secs})
+	}
+	// concurrent callers: goroutines x GOMAXPROCS; words per goroutine chosen so that every
+	// shard makes about the same number of calls
+	words := 40000 // per shard; each word goes through both functions
+	if tier == "thorough" {
+		words = 1000000
+	}
+	for i, cc := range []struct{ procs, g int }{{2, 4}, {2, 16}, {4, 16}, {4, 64}, {16, 16}, {16, 0}} {
+		g := cc.g
+		if g == 0 {
+			g = 4 * cc.procs
+		}
+		a, _ := json.Marshal(shardArgs{Kind: "conc", G: cc.g, Part: i, Count: words / g, Shells: max(2, 400/g)})
+		out = append(out, drv.Shard{Name: fmt.Sprintf("conc-p%d-g%d", cc.procs, g), Args: a, Secs: secs,
+			Env: []string{fmt.Sprintf("GOMAXPROCS=%d", cc.procs)}})
 	}
 	return out
 }
@@ -531,6 +555,30 @@ func (mn mon) Run(sh drv.Shard, c *drv.Ctx) {
 			j := min(i+chunk, len(ins))
 			r.process(fmt.Sprintf("corpus[%d:%d]", i, j), ins[i:j], j-i)
 		}
+	case "conc":
+		runConcShard(sh, a, c, env)
+	case "ql":
+		// index n of length l: bit i set = quote at position i
+		total := 1<<(a.MaxLen+1) - 1
+		for k := 0; k*chunk < total && !r.stop; k++ {
+			if k%a.Parts != a.Part {
+				continue
+			}
+			lo, hi := k*chunk, min((k+1)*chunk, total)
+			ins := make([]string, 0, hi-lo)
+			for n := lo; n < hi; n++ {
+				ins = append(ins, qlWord(n))
+			}
+			ns := 0
+			if sh.Tier == "thorough" {
+				ns = len(ins)
+			}
+			r.process(fmt.Sprintf("ql[%d:%d]", lo, hi), ins, ns)
+			c.Add("inputs_quote_letter_le16", int64(len(ins)))
+			if ns == 0 {
+				c.Add("inputs_lexer_only", int64(len(ins)))
+			}
+		}
 	case "exh":
 		total := exhTotal(a.MaxLen)
 		for k := 0; k*chunk < total && !r.stop; k++ {
@@ -568,6 +616,10 @@ func (mn mon) Replay(v drv.Violation, c *drv.Ctx) {
 		c.Inconclusive("replay: cannot decode case: " + err.Error())
 		return
 	}
+	if cs.Conc != nil {
+		replayConc(cs, c)
+		return
+	}
 	var env *shellEnv
 	if cs.Oracle == "shell" {
 		var err error
@@ -602,8 +654,14 @@ func (mon) Finish(prop, tier string, m *drv.Merged) []string {
 	if m.Sum["controls_fired"] == 0 {
 		inc = append(inc, "no shard passed the positive controls")
 	}
-	if m.Sum["shell_words"] < m.Sum["inputs"] {
+	if m.Sum["shell_words"] < m.Sum["inputs"]-m.Sum["inputs_lexer_only"] {
 		inc = append(inc, "fewer words went through the shells than inputs were generated")
+	}
+	if n := len(m.Sets["concurrency_configs"]); n < 6 {
+		inc = append(inc, fmt.Sprintf("only %d of 6 concurrent configurations ran", n))
+	}
+	if m.Max["goroutines_alive_together"] < 4 {
+		inc = append(inc, "the concurrent shards never had 4 goroutines alive at the same time")
 	}
 	return inc
 }
